@@ -40,6 +40,10 @@ type faultCase struct {
 	Tolerant    bool   `json:"tolerant"`   // the script stays within the tolerance: everything must be processed
 	StopAfter   int    `json:"stop_after"` // for stop scripts: number of data bytes supplied before the stop
 	WantErrKind string `json:"want_error"` // eof | timeout | other
+	// what the source reports for ever once the script has been played: "" = end of
+	// file (the same io.EOF every time), "timeout" = a fresh i/o timeout error each time
+	// (as os.File and net.Conn produce), "mixed" = the two alternating
+	AfterEnd string `json:"after_script,omitempty"`
 	// unrelated settings of the same configuration: they must not matter
 	ReadTimeoutMs uint   `json:"read_timeout_ms,omitempty"`
 	SleepOpenMs   uint   `json:"sleep_after_failed_open_ms,omitempty"`
@@ -47,6 +51,15 @@ type faultCase struct {
 }
 
 var errOther = errors.New("input/output error")
+
+// other hard errors a source can report: none of them is an end of file or an i/o timeout
+var errOthers = map[string]error{
+	"other":            errOther,
+	"other-unexpected": io.ErrUnexpectedEOF,
+	"other-reset":      errors.New("read tcp 127.0.0.1:2101->127.0.0.1:40000: read: connection reset by peer"),
+	"other-closed":     io.ErrClosedPipe,
+	"other-wrapped":    &fs.PathError{Op: "read", Path: "/dev/ttyUSB0", Err: errors.New("no such device")},
+}
 
 func faultErr(kind string) error {
 	switch kind {
@@ -56,6 +69,9 @@ func faultErr(kind string) error {
 		return errors.New("read /dev/ttyUSB0: i/o timeout")
 	case "deadline":
 		return &fs.PathError{Op: "read", Path: "/dev/ttyUSB0", Err: os.ErrDeadlineExceeded}
+	}
+	if e, ok := errOthers[kind]; ok {
+		return e
 	}
 	return errOther
 }
@@ -72,6 +88,10 @@ type scriptReader struct {
 	maxGap    time.Duration // longest series of consecutive faults inside the script, first to last
 	supplied  int
 	afterEnd  int
+	afterKind string
+	tolerance time.Duration
+	endStart  time.Time
+	neverStop bool // the handler kept reading a silent source far beyond the tolerance
 }
 
 func (s *scriptReader) noteFault() {
@@ -94,6 +114,21 @@ func (s *scriptReader) Read(p []byte) (int, error) {
 	if s.pos >= len(s.steps) {
 		s.noteFault()
 		s.afterEnd++
+		if s.afterEnd == 1 {
+			s.endStart = time.Now()
+		}
+		// The source stays silent for good.  Every one of these reads shows the handler
+		// alive and looking at its clock; once it has made more than 200 of them over
+		// more than 25 times the tolerance (and 2 s) it is not going to stop: say so and
+		// end the run with a hard error.
+		if s.tolerance > 0 && s.afterEnd > 200 && time.Since(s.endStart) > 25*s.tolerance && time.Since(s.endStart) > 2*time.Second {
+			s.neverStop = true
+			return 0, errOther
+		}
+		switch {
+		case s.afterKind == "timeout" || s.afterKind == "mixed" && s.afterEnd%2 == 0:
+			return 0, faultErr([]string{"timeout", "deadline"}[s.afterEnd%2])
+		}
 		return 0, io.EOF
 	}
 	st := s.steps[s.pos]
@@ -137,16 +172,18 @@ func (s *scriptReader) Read(p []byte) (int, error) {
 }
 
 type faultObs struct {
-	msgs     []handler.Message
-	err      error
-	closed   bool
-	stalled  bool
-	supplied int
+	msgs      []handler.Message
+	err       error
+	closed    bool
+	stalled   bool
+	supplied  int
+	neverStop bool
+	afterEnd  int
 }
 
 func runFaultScript(k faultCase) faultObs {
 	steps := append([]step(nil), k.Steps...)
-	sr := &scriptReader{steps: steps}
+	sr := &scriptReader{steps: steps, afterKind: k.AfterEnd, tolerance: time.Duration(k.TimeoutMs) * time.Millisecond}
 	cfg := &jsonconfig.Config{WaitTimeOnEOFMilliseconds: k.WaitMs, TimeoutOnEOFMilliSeconds: k.TimeoutMs,
 		ReadTimeoutMilliSeconds: k.ReadTimeoutMs, SleepTimeAfterFailedOpenMilliSeconds: k.SleepOpenMs}
 	ch := make(chan handler.Message, 4)
@@ -171,6 +208,8 @@ func runFaultScript(k faultCase) faultObs {
 	sr.mu.Lock()
 	defer sr.mu.Unlock()
 	obs.supplied = sr.supplied
+	obs.neverStop = sr.neverStop
+	obs.afterEnd = sr.afterEnd
 	// stall guard: a series of faults returned by consecutive reads inside the script
 	// (so the script meant it to be within the tolerance) in fact lasted nearly as long
 	// as the tolerance or longer: the handler was entitled to give up.  The margin
@@ -249,6 +288,10 @@ func execC13Y(c *child.Ctx, k faultCase, cj []byte, confirming bool) (bool, stri
 		c.Violate("no-error-returned", "Handle returned nil although the input ended", cj)
 		return true, ""
 	}
+	if obs.neverStop {
+		c.Violate("did-not-stop", fmt.Sprintf("the source stayed silent for good (reporting %q after the script) and the handler was still reading it after %d reads and more than 25 times the tolerance of %d ms (%s)", k.AfterEnd, obs.afterEnd, k.TimeoutMs, k.Note), cj)
+		return true, ""
+	}
 	data := allData(k.Steps)
 	if k.Tolerant {
 		if obs.supplied != len(data) {
@@ -280,9 +323,9 @@ func execC13Y(c *child.Ctx, k faultCase, cj []byte, confirming bool) (bool, stri
 		c.Violate("data-before-stop-lost", why+" ("+k.Note+")", cj)
 	}
 	switch k.WantErrKind {
-	case "other":
-		if !errors.Is(obs.err, errOther) {
-			c.Violate("wrong-error", fmt.Sprintf("Handle returned %v, the read error was %v", obs.err, errOther), cj)
+	default:
+		if want, ok := errOthers[k.WantErrKind]; ok && !errors.Is(obs.err, want) {
+			c.Violate("wrong-error", fmt.Sprintf("Handle returned %v, the read error was %v", obs.err, want), cj)
 		}
 	}
 	c.Count("stop_scripts_checked", 1)
@@ -340,6 +383,7 @@ func monC13(c *child.Ctx, replay json.RawMessage) {
 		nontriv = append(nontriv, nt)
 	}
 	faultKinds := []string{"eof", "timeout", "deadline"}
+	otherKinds := []string{"other", "other", "other-unexpected", "other-reset", "other-closed", "other-wrapped"}
 	nStreams := c.Share(c.Pick(48, 1600))
 	for si := 0; si < nStreams; si++ {
 		s := gen.CleanStream(r, gen.CleanOpts{MinFrames: 2, MaxFrames: 4, SmallFrames: true, TruncTail: si%3 == 0})
@@ -448,7 +492,8 @@ func monC13(c *child.Ctx, replay json.RawMessage) {
 				// a hard error directly after a tolerated end-of-file or timeout (no byte between)
 				f := faultKinds[r.Intn(3)]
 				c.Count("stop_scripts_other_error_after_tolerated_fault", 1)
-				add(faultCase{Steps: mk(pos, []string{f, "other"}), TimeoutMs: tolMs, WaitMs: 1, StopAfter: pos, WantErrKind: "other", Note: fmt.Sprintf("%s then another read error after byte %d", f, pos)}, inside[pos])
+				ok := otherKinds[r.Intn(len(otherKinds))]
+				add(faultCase{Steps: mk(pos, []string{f, ok}), TimeoutMs: tolMs, WaitMs: 1, StopAfter: pos, WantErrKind: ok, Note: fmt.Sprintf("%s then another read error (%v) after byte %d", f, errOthers[ok], pos)}, inside[pos])
 			case 0:
 				f := faultKinds[r.Intn(3)]
 				c.Count("stop_scripts_zero_tolerance", 1)
@@ -459,7 +504,8 @@ func monC13(c *child.Ctx, replay json.RawMessage) {
 					tm = tolMs
 				}
 				c.Count("stop_scripts_other_error", 1)
-				add(faultCase{Steps: mk(pos, []string{"other"}), TimeoutMs: tm, WaitMs: 1, StopAfter: pos, WantErrKind: "other", Note: fmt.Sprintf("other read error after byte %d", pos)}, inside[pos])
+				ok := otherKinds[r.Intn(len(otherKinds))]
+				add(faultCase{Steps: mk(pos, []string{ok}), TimeoutMs: tm, WaitMs: 1, StopAfter: pos, WantErrKind: ok, Note: fmt.Sprintf("other read error (%v) after byte %d", errOthers[ok], pos)}, inside[pos])
 			default:
 				// silence beyond the tolerance: faults keep coming until the handler gives up
 				fl := []string{}
@@ -467,7 +513,11 @@ func monC13(c *child.Ctx, replay json.RawMessage) {
 					fl = append(fl, faultKinds[r.Intn(3)])
 				}
 				c.Count("stop_scripts_silence_beyond_tolerance", 1)
-				add(faultCase{Steps: mk(pos, fl), TimeoutMs: 40, WaitMs: 1, StopAfter: pos, WantErrKind: "eof", Note: fmt.Sprintf("silent beyond the tolerance after byte %d", pos)}, inside[pos])
+				after := []string{"", "timeout", "mixed"}[r.Intn(3)]
+				if after != "" {
+					c.Count("stop_scripts_silent_source_reporting_fresh_timeouts", 1)
+				}
+				add(faultCase{Steps: mk(pos, fl), TimeoutMs: 40, WaitMs: 1, StopAfter: pos, WantErrKind: "eof", AfterEnd: after, Note: fmt.Sprintf("silent beyond the tolerance after byte %d", pos)}, inside[pos])
 			}
 		}
 	}
